@@ -91,7 +91,18 @@ fn main() {
             for i in 0..n {
                 let seed = driver::run_seed(driver::DEFAULT_SEED, prop, i);
                 let tr = gen::generate(seed, prop);
+                let t1 = std::time::Instant::now();
                 let c = runner::check_trace(&tr, prop.bit(), false);
+                let el = t1.elapsed().as_micros() as u64;
+                let bucket: &'static str = match (tr.cuts.len(), tr.steps.len()) {
+                    (k, _) if k > 200 => "t_us.very_wide",
+                    (k, _) if k > 30 => "t_us.wide",
+                    (_, n) if n > 500 => "t_us.very_long",
+                    (_, n) if n > 95 => "t_us.long",
+                    _ => "t_us.normal",
+                };
+                *stats.entry(bucket).or_insert(0) += el;
+                *stats.entry(match bucket { "t_us.very_wide" => "n.very_wide", "t_us.wide" => "n.wide", "t_us.very_long" => "n.very_long", "t_us.long" => "n.long", _ => "n.normal" }).or_insert(0) += 1;
                 let out = c.out;
                 if let Some(v) = &out.violation {
                     viol += 1;
